@@ -346,7 +346,10 @@ func norm(n Node, inPath bool) Node {
 		x := norm(n.X, false)
 		// a group/sort on the left of a group is a parse error or a different
 		// structure: parenthesise anything looser than a path
-		if Level(x) < 90 {
+		if _, isSort := x.(*Sort); isSort {
+			// an order-by ends with its closing parenthesis: the braces can
+			// follow it directly (seq^(k){...} groups the sorted sequence)
+		} else if Level(x) < 90 {
 			x = wrap(x)
 		}
 		if _, ok := x.(*Group); ok {
